@@ -201,3 +201,49 @@ package kzg
 //@ ensures[powers-of-the-trapdoor] isnil(result1) && *bAlpha != -1 ==> scalars && g2trapdoor && len(result0.Pk.G1) == size
 //@ modifies nothing
 //@ end
+
+// deriveGamma: the Fiat-Shamir challenge of the batched single-point opening binds, in this order and with nothing
+// skipped or repeated: the evaluation point, every digest, every claimed value, every item of the caller's transcript
+// data. Before every Bind the value bound is the Marshal() of the element whose turn it is (the point; digests[nd];
+// the nv-th claimed value) or the nt-th transcript item itself, and ComputeChallenge is called only when all four
+// counts are complete (a ghost automaton over the three loops). What Bind and ComputeChallenge do with the values is
+// the contract of the transcript (C15).
+
+//@ func deriveGamma
+//@ layer ring fr.Element
+//@ option opaque-calls
+//@ option struct-slices
+//@ option functional-nested-slices
+//@ option nomerge
+//@ ghost stage = 0
+//@ ghost nd = 0
+//@ ghost nv = 0
+//@ ghost nt = 0
+//@ ghost np = 0
+//@ ghost mok = false
+//@ cut after call Marshal #*
+//@ + ghost mok = (stage == 0 && np == 0 && same(callarg0, &point)) || (stage == 1 && same(callarg0, digests[nd])) || (stage == 2 && *callarg0 == claimedValues[nv])
+//@ cut before call Bind #*
+//@ + invariant[bound-value] (stage <= 2 ==> mok && called(Marshal) && same(callarg2, resultof_Marshal)) && (stage == 3 ==> same(callarg2, dataTranscript[nt]))
+//@ cut after call Bind #*
+//@ + ghost np = ite(stage == 0, np + 1, np)
+//@ + ghost nd = ite(stage == 1, nd + 1, nd)
+//@ + ghost nv = ite(stage == 2, nv + 1, nv)
+//@ + ghost nt = ite(stage == 3, nt + 1, nt)
+//@ + ghost mok = false
+//@ loop 0
+//@ + ghost stage = 1
+//@ + invariant[digests] nd == rangeindex + 1 && -1 <= rangeindex && rangeindex < len(digests) && nv == 0 && nt == 0 && np == 1
+//@ + havoc nd
+//@ loop 1
+//@ + ghost stage = 2
+//@ + invariant[values] nv == rangeindex + 1 && -1 <= rangeindex && rangeindex < len(claimedValues) && nd == len(digests) && nt == 0
+//@ + havoc nv
+//@ loop 2
+//@ + ghost stage = 3
+//@ + invariant[transcript-data] nt == i && 0 <= i && i <= len(dataTranscript) && nd == len(digests) && nv == len(claimedValues)
+//@ + havoc nt
+//@ cut before call ComputeChallenge #1
+//@ + invariant[everything-bound] stage == 3 && np == 1 && nd == len(digests) && nv == len(claimedValues) && nt == len(dataTranscript)
+//@ modifies nothing
+//@ end
